@@ -111,6 +111,16 @@ def handle (op : String) (args : List String) : Option String :=
       match Checkpoint.load cd f with
       | none => pure "load-error"
       | some s => pure s!"params {s.params} rows {showNats s.rows} series {showNats s.series}"
+  | "ckpt.outcome" => do
+      -- per-file states: P(rev) B(roken) C(ut) D(one)
+      let fs ← args.mapM (fun t => match t with
+        | "P" => some Checkpoint.FileState.prev | "B" => some .broken | "C" => some .cut | "D" => some .done | "S" => some .same | _ => none)
+      pure (match Checkpoint.restoreOutcome fs with
+        | .error => "error" | .equalsPrev => "prev" | .equalsNew => "new" | .hybrid => "hybrid")
+  | "ckpt.sql" => do
+      let (prev, failAt) ← run (do let p ← list nat; let f ← int; pure (p, f)) args
+      let db := Checkpoint.sqlRun ⟨prev, none⟩ (Checkpoint.sqlSaveStmts 999) (if failAt < 0 then none else some failAt.toNat)
+      pure (showNats db.committed)
   | "ss.check" => do
       let (b, p) ← run (do let b ← list (list flt); let p ← list flt; pure (b, p)) args
       match SearchSpace.checkBounds (0.0 : Float) b p with
